@@ -121,14 +121,14 @@ COMPAT_SWITCHES = frozenset([
     "any-other-end-tag-ns", "after-body-ws", "frameset-text",
     "colgroup-text", "pre-lf", "table-in-table-fragment", "reset-mode", "cell-caption-ws",
     "foster-flag-reset", "table-text-current-node", "br-end-frameset-ok",
-    "button-in-table", "table-text-doctype",
+    "button-in-table", "table-text-doctype", "cdata-nul",
 ])
 # cdata-nul: html5lib's tokenizer turns NUL inside a CDATA section into U+FFFD; the token
 #   interface does not tell the tree builder whether a NUL came from a CDATA section, so the
 #   switch has to live in the tokenizer / the harness.
 # implied-end-recursive: a RecursionError in html5lib, nothing to reproduce.
 # template: html5lib has no template support at all (no switch by design).
-UNIMPLEMENTED_COMPAT = frozenset(["cdata-nul", "implied-end-recursive"])
+UNIMPLEMENTED_COMPAT = frozenset(["implied-end-recursive"])
 
 # --------------------------------------------------------------------------------------
 # Sets and tables
@@ -478,8 +478,20 @@ class _Parser(object):
                         initial_state = "rawtext"
             elif context == "plaintext":
                 initial_state = "plaintext"
-        self.tok = t.RefTokenizer(text, initial_state=initial_state, last_start_tag=None,
-                                  cdata_allowed=self._cdata_allowed)
+        tok_cls = t.RefTokenizer
+        if "cdata-nul" in self.compat:
+            # html5lib replaces NUL by U+FFFD inside CDATA sections already in the tokenizer
+            class tok_cls(t.RefTokenizer):
+                def s_cdata_section(self):
+                    if self._peek() == "\x00":
+                        self._consume()
+                        self._emit_char("\ufffd")
+                        return
+                    t.RefTokenizer.s_cdata_section(self)
+        self.tok = tok_cls(text, initial_state=initial_state, last_start_tag=None,
+                           cdata_allowed=self._cdata_allowed)
+        # html5lib's character-token granularity (needed by the frameset-text / colgroup-text switches)
+        self.tok.charref_boundaries = True
         if context is not None:
             # steps 5-: root html element
             root = Node("element", name="html", ns=HTML_NS)
@@ -992,6 +1004,8 @@ class _Parser(object):
             kind = token[0]
             if kind == "chars":
                 data = token[1]
+                self.run_has_ws = False       # a new character token (see charref_boundaries)
+                self.run_has_nonws = False
                 self.lf_element_pending = False
                 if self.skip_lf:
                     self.skip_lf = False
@@ -1544,7 +1558,8 @@ class _Parser(object):
                 return None
             data = token[1]
             if (self.h5l_drop_lf and cls == "ws" and not self.run_has_nonws
-                    and self.mode == "in body"):
+                    and self.mode in ("in body", "after after body", "after after frameset")):
+                # the phases whose whitespace tokens reach InBodyPhase.processSpaceCharacters
                 self.h5l_drop_lf = False
                 cur = self.stack[-1]
                 if (data[:1] == "\n" and cur.name in ("pre", "listing", "textarea")
@@ -2143,12 +2158,12 @@ class _Parser(object):
                     # pop a row group / row although no table is in scope, and never
                     # reprocesses the start tag
                     self.trace.add("dev:table-in-table-fragment")
+                    if "table-in-table-fragment" in self.compat:
+                        return self.h5l_table_in_table_fragment()
                 if not self.in_table_scope("table"):
                     return None
                 self.pop_until("table")
                 self.reset_insertion_mode()
-                if self.context is not None and "table-in-table-fragment" in self.compat:
-                    return None
                 return REPROCESS
             if name in ("style", "script", "template"):
                 return self.m_in_head(token)
@@ -2190,6 +2205,36 @@ class _Parser(object):
             return self.in_table_anything_else(token)
         # EOF
         return self.m_in_body(token)
+
+    def h5l_table_in_table_fragment(self):
+        """html5lib, fragment parse (parser.innerHTML set), <table> start tag reaching
+        InTablePhase.startTagTable: it calls ``self.parser.phase.processEndTag(</table>)`` --
+        the *current* phase, which for "in table body" / "in row" only closes the row group /
+        the row and whose "reprocess" return value is discarded -- and then drops the start
+        tag (``if not self.parser.innerHTML: return token``)."""
+        stack = self.stack
+        mode = self.mode
+        if mode == "in table body":
+            # InTableBodyPhase.endTagTable
+            if self.in_table_scope(("tbody", "thead", "tfoot")):
+                self.clear_stack_to(self.TABLE_BODY_CONTEXT)
+                stack.pop()
+                self.set_mode("in table")
+        elif mode == "in row":
+            # InRowPhase.endTagTable -> endTagTr
+            if self.in_table_scope("tr"):
+                self.clear_stack_to(self.TABLE_ROW_CONTEXT)
+                stack.pop()
+                self.set_mode("in table body")
+        else:
+            # InTablePhase.endTagTable
+            if self.in_table_scope("table"):
+                self.generate_implied_end_tags()
+                while stack[-1].name != "table":     # names only, as html5lib
+                    stack.pop()
+                stack.pop()
+                self.reset_insertion_mode()
+        return None
 
     def in_table_anything_else(self, token):
         self.err()
